@@ -298,6 +298,12 @@ def mps_text(m, rnd):
     first_n = rnd.random() < 0.5
     if not first_n or rnd.random() < 0.3:
         out += ["OBJNAME", sp() + objn]
+    # SOS sets (decided here because a reference row has to be declared in ROWS): optionally the SOS weights come from a
+    # reference row, an extra N row (no part of the LP) holding distinct weights
+    use_sos = rnd.random() < 0.12
+    refrow = rnd_name(rnd, used | {objn}, "wt") if (use_sos and rnd.random() < 0.5) else None
+    if refrow:
+        out += ["REFROW", sp() + refrow]
     out.append("ROWS")
     expected = m.clone()
     rowlines = []
@@ -316,15 +322,17 @@ def mps_text(m, rnd):
         rowlines.insert(0, nline)
     else:
         rowlines.insert(rnd.randint(0, len(rowlines)), nline)
+    if refrow:
+        rowlines.append(" N%s%s" % (sp(), refrow))
     out += rowlines
     out.append("COLUMNS")
     inint = False
     mk = 0
     marked_cols = {}
     # SOS sets (marker form) around runs of continuous columns: no effect on the LP, but the reader and writer carry them
-    use_sos = rnd.random() < 0.12
     sos_left = 0
     sos_name = None
+    refw = 0
     for c in m.cols:
         use_marker = bool(c.isint) and (rnd.random() < 0.6 or (c.lo == NINF and c.up == INF))
         if sos_left and (use_marker or c.isint):
@@ -361,6 +369,9 @@ def mps_text(m, rnd):
                 i += 1
             i += 1
             out.append(ln)
+        if sos_left and refrow:
+            refw += rnd.randint(1, 4)
+            out.append(" %s%s%s%s%d" % (c.name, sp(), refrow, sp(), refw))
         if sos_left:
             sos_left -= 1
             if not sos_left:
